@@ -63,7 +63,7 @@ def canon_model_parsed(o) -> dict:
     params = [[nm, {"typ": v["typ"], "doc": v["doc"], "default": v["default"], "extra": sorted(v["extra"][1], key=lambda kv: kv[0])}]
               for nm, v in p["params"]]
     ret = None if p["returns"] is None else {"typ": p["returns"]["typ"], "doc": p["returns"]["doc"], "extra": []}
-    return {"name": p["name"], "doc": p["doc"], "params": params, "returns": ret}
+    return {"name": [] if p["name"] == [None] else p["name"], "doc": p["doc"], "params": params, "returns": ret}  # name None = JSON null
 
 
 def real_parse(schema_py):
@@ -403,6 +403,7 @@ WITNESSES = [
     ("C06-single-member-literal", {"name": "F", "doc": "", "params": [["a", P(lit(["alpha"]))]], "returns": None}),
     ("C06-pattern-unanchored", {"name": "F", "doc": "", "params": [["a", P(lit(["alpha", "beta"]))]], "returns": None}),
     ("C06-none-default-dropped", {"name": "F", "doc": "", "params": [["a", P(base("int", True), None, ["n"])]], "returns": None}),
+    ("C06-none-like-str-default-dropped", {"name": "F", "doc": "", "params": [["a", P(base("str"), None, ["s", "None"])]], "returns": None}),
 ]
 FIXED = [
     {"name": "F", "doc": "", "params": [], "returns": None},
@@ -611,6 +612,8 @@ def run(chk: core.Check) -> int:
             chk.count(("parse", json.dumps(w, sort_keys=True)), kind != "emitted" or len(w[1]) > 0)
             if a != b:
                 n_dis += 1
+                if os.environ.get("C06_DEBUG"):
+                    print("PARSE-DIS", kind, json.dumps(w)[:1200], "\n   impl", json.dumps(a)[:1200], "\n   model", json.dumps(b)[:1200])
                 chk.disagreement("C06 correspondence: json_schema parse", {"kind": kind, "schema": w}, a, b)
         chk.oblige("correspondence: cdd.json_schema.parse.json_schema = JsonSchema.parse on %d schemas (%s)" % (len(parse_inputs), kinds),
                    "correspondence", n_dis == 0, "%d disagreements" % n_dis)
